@@ -450,3 +450,39 @@ def des3_cbc_enc(key, iv, data):
         prev = des3_block(key, xor(data[i:i + 8], prev))
         out += prev
     return out
+
+
+# ------------------------------------------------------------------------------- X25519 (RFC 7748), reference
+def x25519(k_bytes, u_bytes):
+    """scalar multiplication on Curve25519: 32-byte little-endian scalar and u-coordinate -> 32-byte shared secret"""
+    p = 2 ** 255 - 19
+    k = int.from_bytes(k_bytes, 'little')
+    k &= ~7
+    k &= ~(128 << 8 * 31)
+    k |= 64 << 8 * 31
+    u = int.from_bytes(u_bytes, 'little') & ((1 << 255) - 1)
+    x1, x2, z2, x3, z3, swap = u, 1, 0, u, 1, 0
+    for t in reversed(range(255)):
+        kt = (k >> t) & 1
+        swap ^= kt
+        if swap:
+            x2, x3, z2, z3 = x3, x2, z3, z2
+        swap = kt
+        a, aa = (x2 + z2) % p, 0
+        aa = a * a % p
+        b = (x2 - z2) % p
+        bb = b * b % p
+        e = (aa - bb) % p
+        c = (x3 + z3) % p
+        d = (x3 - z3) % p
+        da, cb = d * a % p, c * b % p
+        x3 = (da + cb) ** 2 % p
+        z3 = x1 * (da - cb) ** 2 % p
+        x2 = aa * bb % p
+        z2 = e * (aa + 121665 * e) % p
+    if swap:
+        x2, x3, z2, z3 = x3, x2, z3, z2
+    return (x2 * pow(z2, p - 2, p) % p).to_bytes(32, 'little')
+
+
+X25519_BASE = (9).to_bytes(32, 'little')
